@@ -161,8 +161,8 @@ class Ctx:
         """an always-true fact about fresh variables (definitional)"""
         self.decl.append(f"(assert {term})")
 
-    def text(self):
-        return "(set-logic ALL)\n" + "\n".join(self.decl) + "\n"
+    def text(self, upto=None):
+        return "(set-logic ALL)\n" + "\n".join(self.decl if upto is None else self.decl[:upto]) + "\n"
 
     def path_term(self, conds=None):
         c = self.pathcond if conds is None else conds
@@ -902,6 +902,12 @@ class Interp:
 
     def arg_ty(self, fr, op):
         if op.kind == "const":
+            if op.const.kind == "named":
+                try:
+                    it = self.resolve_const(fr, op.const.value)
+                    return it.ret.s if it.ret is not None else None
+                except Untranslatable:
+                    return None
             return op.const.ty
         t = self.place_ty(fr, op.place)
         return t.s if t is not None else None
@@ -1347,6 +1353,9 @@ def havoc_leaves(ip, v, hint="cut"):
             ip.write_path(v.cell, v.path, new)
         return v
     v = ip.force(v)
+    if getattr(ip.ctx, "cut_at", None) is None:
+        ip.ctx.cut_at = len(ip.ctx.decl)          # everything before this index is the prefix of the cut
+        ip.ctx.cut_path = list(ip.ctx.pathcond)
     if isinstance(v, S):
         lo, hi = ty_range(v.ty)
         w = S(ip.ctx.fresh(lo, hi, hint), v.ty)
